@@ -105,6 +105,8 @@ package sugardb
 //@   ensures {C20} otherkeys: forall k string :: k != key ==> (has(server.store[dbof(ctx)], k) <==> old(has(server.store[dbof(ctx)], k))) && server.store[dbof(ctx)][k] == old(server.store[dbof(ctx)][k])
 //@   ensures {C01} card: len(server.store[dbof(ctx)]) == old(len(server.store[dbof(ctx)])) - ((result == nil && old(has(server.store[dbof(ctx)], key))) ? 1 : 0)
 //@   ensures {C01} succeeds: memok(old(server.store[dbof(ctx)][key].Value)) ==> result == nil
+//@   ensures {C08} uncached-lfu: result == nil && old(has(server.store[dbof(ctx)], key)) && (server.config.EvictionPolicy == "allkeys-lfu" || server.config.EvictionPolicy == "volatile-lfu") ==> !has(server.lfuCache.cache[dbof(ctx)].keys, key)
+//@   ensures {C08} uncached-lru: result == nil && old(has(server.store[dbof(ctx)], key)) && (server.config.EvictionPolicy == "allkeys-lru" || server.config.EvictionPolicy == "volatile-lru") ==> !has(server.lruCache.cache[dbof(ctx)].keys, key)
 //@   ensures boolmaps: forall m map[string]bool, k string :: allocated(m) && m != old(server.lfuCache.cache[dbof(ctx)].keys) && m != old(server.lruCache.cache[dbof(ctx)].keys) ==> (has(m, k) <==> old(has(m, k))) && m[k] == old(m[k])
 //@   ensures {C08} unindexed: result == nil && old(has(server.store[dbof(ctx)], key)) ==> !(exists i int :: 0 <= i && i < len(server.keysWithExpiry.keys[dbof(ctx)]) && server.keysWithExpiry.keys[dbof(ctx)][i] == key)
 //@   ensures {C19} accounting: result == nil ==> server.memUsed == old(server.memUsed) - (old(has(server.store[dbof(ctx)], key)) ? entrymem(old(server.store[dbof(ctx)][key]), key) : 0)
